@@ -18,7 +18,7 @@ RULE = (
     "stress / failure components built with that surface's own dictionary on its own converged state"
 )
 ASSUMPTIONS = ["finite alphabets; ny<=5", "element local frame convention x' along element, y' = x' cross global x (as documented for the FEM)", "OpenMDAO/NumPy trusted"]
-BOUND = {"quick": "ny in {2,3}", "thorough": "ny in {2,3,5}"}
+BOUND = {"quick": "ny in {2,3} exhaustively + beams of 16 / 21 / 41 nodes on two layouts", "thorough": "ny in {2,3,5}"}
 E_, G_ = 70.0e9, 30.0e9
 
 
@@ -32,6 +32,9 @@ def states(tier, seed):
             st.append(dict(part="stress", layout=lay, side=side, ny=ny, model=model, gscale=1.0e-3, fam=fam))
             # sub-millimetre elements (a centimetre-sized specimen): no absolute length may be built into the element frame
             st.append(dict(part="stress", layout=lay, side=side, ny=ny, model=model, gscale=1.0e-4, fam=fam))
+    # production-size beams (element indexing of the stress recovery beyond ny = 5)
+    for lay, (side, ny), model in itertools.product(["swept", "twdi"], [("left", 21), ("full", 41), ("left", 16)], ["tube", "wingbox"]):
+        st.append(dict(part="stress", layout=lay, side=side, ny=ny, model=model, fam=fam))
     for N, model, pat, mag, yld, rho in itertools.product(range(1, 9), ["tube", "wingbox"], ["equal", "peak", "ladder", "zeros", "two_max"], [0.0, 1.0, 1e6, 1e9, 1e12], [1.0, 2e8], [10.0, 100.0]):
         st.append(dict(part="ks", N=N, model=model, pattern=pat, mag=mag, yld=yld, rho=rho, fam=fam))
     # the distances that turn curvature into the extreme-fibre bending stresses of the wingbox (htop, hbottom): geometric depth of
